@@ -9,7 +9,7 @@ PROP = 'C10'
 MODULE = 'WaveletsVerif.Properties.C10'
 THEOREMS = ['WV.C10.sfb1dCh_eq_idwt', 'WV.C10.step_eq', 'WV.C10.DWT1DInverse_eq_waverec', 'WV.C10.sfb1dCh_per_eq_idwt_partial', 'WV.C10.SFB2D_forward_eq_idwt2', 'WV.C10.step_eq2', 'WV.C10.DWTInverse_eq_waverec2',
             'WV.C01Z.sfb1dCh_per_gen', 'WV.C01Z.sfb1dCh_zero_gen', 'WV.C01Z.sfb1d_pad_gives_length', 'WV.C10M.SFB2D_forward_multi', 'WV.C10M.step_eqM', 'WV.C10M.DWTInverse_multi', 'WV.C10M.DWTInverse_multi_eq_waverec2',
-            'WV.C10P.SFB2D_forward_per_eq_idwt2', 'WV.C10P.step_eq2P', 'WV.C10P.DWTInverse_per_eq_waverec2', 'WV.C02Q.step_eq_per', 'WV.C02Q.DWT1DInverse_per_eq_waverec', 'WV.C19Z.rollPy_gen', 'WV.C19Z.prep_mirrors_gen', 'WV.C10Z.dwtinv2_crop_gen', 'WV.C10Z.module_glue_gen', 'WV.C10Z.writes_into_parameters_gen']
+            'WV.C10P.SFB2D_forward_per_eq_idwt2', 'WV.C10P.step_eq2P', 'WV.C10P.DWTInverse_per_eq_waverec2', 'WV.C02Q.step_eq_per', 'WV.C02Q.DWT1DInverse_per_eq_waverec', 'WV.C19Z.rollPy_gen', 'WV.C19Z.prep_mirrors_gen', 'WV.C10Z.dwtinv2_crop_gen', 'WV.C10Z.module_glue_gen', 'WV.C10Z.writes_into_parameters_gen', 'WV.C07W.idwt_zero_local']
 KF = 'C10-periodization-short'
 OPS = ['sfb1d', 'SFB1D_fwd', 'SFB2D_fwd', 'DWT1DInverse', 'DWTInverse', 'sfb2d']
 
